@@ -21,7 +21,14 @@ def run(tier, seed, t0):
     cov["states"] += covt["states"]
     cov["transitions"] += covt["transitions"]
     cov["traces_validated_against_impl"] += covt["traces_validated_against_impl"]
-    return core.finish("C05", tier, seed, LEVEL, cov, rej + rejt, t0, ASSUME)
+    # rigid diagrams (cups, caps, swaps, adjoint types) go through the same interchange code and are upgraded back
+    covr, rejr = _diagapi.run("C05", "J05", tier, seed, t0, cls="rigid", invariants=["InvWellTyped", "InvInterchange"])
+    cov["rigid_machine"] = {k: covr[k] for k in ("states", "transitions", "traces_validated_against_impl", "model", "replay",
+                                                 "verdicts_by_clause", "canary")}
+    cov["states"] += covr["states"]
+    cov["transitions"] += covr["transitions"]
+    cov["traces_validated_against_impl"] += covr["traces_validated_against_impl"]
+    return core.finish("C05", tier, seed, LEVEL, cov, rej + rejt + rejr, t0, ASSUME)
 
 
 def replay(path):
